@@ -138,13 +138,23 @@ func Run(c *core.Ctx) {
 		"are opaque steps; instrumented: goa's pkg, http, http/middleware, middleware AND the generated service, views, server and client packages of every design")
 	c.Note("family_b_bounds", "2 threads x 1 request over a covering set of request pairs per mounted service (per method: every pair of request classes and each class with itself; "+
 		"across methods: a ring of valid x valid and valid x error), every schedule with <= 2 preemptions (quick); "+
-		"thorough: ALL pairs of the request universe of each service in ALL interleavings (complete DFS with sleep sets; the covering set additionally with <= 2 preemptions as a cross-check of the two searches), "+
+		"thorough: ALL pairs of the request universe of each service (the raw not-found request included) in ALL interleavings (complete DFS with sleep sets; the covering set additionally with <= 2 preemptions as a cross-check of the two searches), "+
 		"and a covering set of triples (3 threads) with <= 2 preemptions; deep hooks")
+	c.Note("family_b_encodings_and_prefix", map[string]string{
+		"encodings": "the Accept header is set on the wire for ALL requests of a scenario: xml, gob, text/plain, text/html (json is what the generated clients negotiate by default; explicit in menu d); " +
+			"the method that maps Accept itself is driven through its payload with all five encodings (one request class per encoding)",
+		"menu_c": "per method that does not map Accept, per encoding in {xml, gob, text/plain, text/html}: sequential prefix = raw request for an unknown path (muxer not-found handler negotiated to that encoding), " +
+			"then first valid || first valid and first valid || first error request (quick); every pair of request classes of the method (thorough)",
+		"menu_d": "per service, per encoding in all five: no prefix, raw not-found || first valid request; and prefix = that valid request, then raw not-found || raw not-found",
+		"client": "every request goes through the one generated client of the mounted service: two threads encode requests, cross the wire (scheduling point before Request.Write) and decode responses concurrently",
+		"oracle": "sequential references are computed on a freshly mounted server WITHOUT the prefix request",
+		"bounds": "<= 2 preemptions; every alternative of every sync.Pool Get at no preemption cost",
+	})
 	b, corpus := build(c, false)
 	if b == nil {
 		return
 	}
-	o := sched.Options{Families: []string{"c20B"}, Prefix: "B:", AuxIters: 40, AuxCopies: 32, AuxMax: 24}
+	o := sched.Options{Families: []string{"c20B"}, Prefix: "B:", AuxIters: 40, AuxCopies: 32, AuxMax: 32}
 	ms, err := b.Explore(c, o)
 	if err != nil {
 		c.HarnessError("C20 family B: %v", err)
